@@ -51,8 +51,24 @@ DATA = {
     "union": [{"legs": 4, "tricks": 2}, {"legs": 4, "lives": 3}, None, "s"],
     "list": [{"v": 1, "next": {"v": 2, "next": None}}],
 }
-KINDS = ["swrite", "sread", "validate", "cwrite", "cread", "jwrite", "jread", "parse", "canon"]
-JSON_OK = {"rec", "union", "dec_lo", "dec_hi", "logical"}
+RAW["colA"] = {"type": "record", "name": "pal.Palette", "fields": [{"name": "main", "type": {"type": "enum", "name": "Color", "symbols": ["RED", "GREEN", "BLUE"]}},
+                                                               {"name": "others", "type": {"type": "array", "items": "Color"}}, {"name": "m", "type": {"type": "map", "values": "pal.Color"}}]}
+RAW["colB"] = {"type": "record", "name": "pal.Palette", "fields": [{"name": "main", "type": {"type": "enum", "name": "Color", "symbols": ["CYAN", "MAGENTA", "YELLOW", "KEY"]}},
+                                                               {"name": "others", "type": {"type": "array", "items": "Color"}}, {"name": "m", "type": {"type": "map", "values": "pal.Color"}}]}
+DATA["colA"] = [{"main": "GREEN", "others": ["RED", "GREEN", "BLUE"], "m": {"k": "BLUE"}}]
+DATA["colB"] = [{"main": "KEY", "others": ["CYAN", "MAGENTA", "YELLOW"], "m": {"k": "YELLOW"}}]
+KINDS = ["swrite", "sread", "validate", "cwrite", "cread", "jwrite", "jread", "parse", "canon", "fingerprint"]
+JSON_OK = {"rec", "union", "dec_lo", "dec_hi", "logical", "colA", "colB"}
+_CHECK = None
+
+
+def cold_job(ops, pres, first, switches):
+    """Runs in a child forked from a pristine post-import process: the operations meet the library's lazily
+    initialised state for the first time, under the given schedule."""
+    chk = C18()
+    fns = [chk._fn(op, pre) for op, pre in zip(ops, pres)]
+    s = Scheduler(fns, first, switches)
+    return s.run(), s.taken
 
 
 class Scheduler:
@@ -153,13 +169,15 @@ class C18(Check):
         "at most 4 preemptions per schedule; free-running threads are not sampled because they decide nothing",
         "generate_* is excluded: it draws from the process-wide random module by design",
     ]
-    required_labels = ["ops:2", "ops:3", "kind:sread", "kind:swrite", "kind:validate", "kind:parse", "kind:jwrite", "kind:cread", "logical", "shared-schema", "multi-preemption", "preempted-inside"]
-    quick = (12, 4)
+    required_labels = ["ops:2", "ops:3", "kind:sread", "kind:swrite", "kind:validate", "kind:parse", "kind:jwrite", "kind:cread", "logical", "shared-schema", "multi-preemption", "preempted-inside", "cold-start", "kind:fingerprint", "double-preemption"]
+    quick = (10, 4)
     thorough = (120, 16)
 
     def __init__(self):
         self.schedules = 0
         self._parsed = None
+        self._cold_server = None
+        self._cold_owner = None
 
     def selftest(self):
         B.selftest()
@@ -178,18 +196,31 @@ class C18(Check):
             d = gen.D(draw)
             n = 2 if d.p(0.8) else 3
             ops = []
-            for _ in range(n):
+            for j in range(n):
                 sk = d.choice(list(RAW))
                 kind = d.choice(KINDS)
+                if j > 0 and d.p(0.5):
+                    kind = ops[0]["kind"]  # the same code path in both threads is where shared state hurts
+                    if d.p(0.5) and ops[0]["schema"] in ("colA", "colB"):
+                        sk = "colB" if ops[0]["schema"] == "colA" else "colA"
                 if kind in ("jwrite", "jread") and sk not in JSON_OK:
                     kind = "sread"
                 ops.append({"kind": kind, "schema": sk, "datum": d.i(len(DATA[sk])), "form": d.choice(["parsed", "parsed", "raw"])})
             extra = []
             for _ in range(d.rng(0, 3)):
                 extra.append(sorted(d.rng(1, 400) for _ in range(d.rng(2, 4))))
-            return {"ops": ops, "multi": extra}
+            return {"ops": ops, "multi": extra, "cold": d.p(0.25)}
 
         return cases()
+
+    def fixed_cases_for_shard(self, tier, shard, nshards):
+        # called at the very start of a shard, before this process has made any fastavro call: the fork server
+        # created here is a pristine post-import image (needed by the cold-start schedules)
+        from .c17 import ForkServer
+        if self._cold_server is None or self._cold_owner != os.getpid():
+            self._cold_server = ForkServer()
+            self._cold_owner = os.getpid()
+        return self.fixed_cases(tier) if shard == 0 else []
 
     def fixed_cases(self, tier):
         yield {"ops": [{"kind": "sread", "schema": "dec_hi", "datum": 0, "form": "parsed"}, {"kind": "sread", "schema": "dec_lo", "datum": 0, "form": "parsed"}], "multi": []}
@@ -197,24 +228,40 @@ class C18(Check):
         yield {"ops": [{"kind": "swrite", "schema": "dec_hi", "datum": 0, "form": "parsed"}, {"kind": "swrite", "schema": "dec_lo", "datum": 0, "form": "parsed"}], "multi": []}
         yield {"ops": [{"kind": "cwrite", "schema": "rec", "datum": 0, "form": "parsed"}, {"kind": "cwrite", "schema": "union", "datum": 0, "form": "raw"}], "multi": []}
         yield {"ops": [{"kind": "validate", "schema": "dec_hi", "datum": 0, "form": "parsed"}, {"kind": "validate", "schema": "logical", "datum": 0, "form": "parsed"}], "multi": []}
+        yield {"ops": [{"kind": "jwrite", "schema": "rec", "datum": 0, "form": "parsed"}, {"kind": "jwrite", "schema": "logical", "datum": 0, "form": "parsed"}], "multi": []}
+        yield {"ops": [{"kind": "jread", "schema": "rec", "datum": 0, "form": "parsed"}, {"kind": "jread", "schema": "colA", "datum": 0, "form": "raw"}], "multi": []}
+        yield {"ops": [{"kind": "cread", "schema": "colA", "datum": 0, "form": "parsed"}, {"kind": "cread", "schema": "colB", "datum": 0, "form": "parsed"}], "multi": []}
+        yield {"ops": [{"kind": "sread", "schema": "colA", "datum": 0, "form": "raw"}, {"kind": "sread", "schema": "colB", "datum": 0, "form": "raw"}], "multi": []}
+        yield {"ops": [{"kind": "fingerprint", "schema": "rec", "datum": 0, "form": "raw"}, {"kind": "fingerprint", "schema": "union", "datum": 0, "form": "raw"}], "multi": [], "cold": True}
+        yield {"ops": [{"kind": "parse", "schema": "colA", "datum": 0, "form": "raw"}, {"kind": "canon", "schema": "colB", "datum": 0, "form": "raw"}], "multi": [], "cold": True}
 
     # ------------------------------------------------------------------ operations
-    def _fn(self, op):
+    def _prepare(self, op):
+        """Inputs computed in the (warm) parent so that a cold child does not pre-warm anything."""
         sk = op["schema"]
-        schema = self.parsed()[sk] if op["form"] == "parsed" else RAW[sk]
         datum = DATA[sk][op["datum"]]
-        kind = op["kind"]
         fo = io.BytesIO()
         fastavro.schemaless_writer(fo, self.parsed()[sk], datum)
-        enc = fo.getvalue()
         cfo = io.BytesIO()
         fastavro.writer(cfo, self.parsed()[sk], [datum, datum], sync_marker=MARK)
-        cenc = cfo.getvalue()
         text = None
-        if kind == "jread":
+        if op["kind"] == "jread":
             so = io.StringIO()
             fastavro.json_writer(so, self.parsed()[sk], [datum])
             text = so.getvalue()
+        return {"enc": fo.getvalue(), "cenc": cfo.getvalue(), "text": text, "canon": fastavro.schema.to_parsing_canonical_form(RAW[sk])}
+
+    def _fn(self, op, pre=None):
+        sk = op["schema"]
+        if pre is None:
+            pre = self._prepare(op)
+        if op["form"] == "parsed":
+            schema = self.parsed()[sk] if _CHECK is self or pre is None else fastavro.parse_schema(RAW[sk])
+        else:
+            schema = RAW[sk]
+        datum = DATA[sk][op["datum"]]
+        kind = op["kind"]
+        enc, cenc, text = pre["enc"], pre["cenc"], pre["text"]
 
         def swrite():
             f = io.BytesIO()
@@ -249,7 +296,10 @@ class C18(Check):
         def canon():
             return fastavro.schema.to_parsing_canonical_form(schema)
 
-        return {"swrite": swrite, "sread": sread, "validate": validate, "cwrite": cwrite, "cread": cread, "jwrite": jwrite, "jread": jread, "parse": parse, "canon": canon}[kind]
+        def fingerprint():
+            return fastavro.schema.fingerprint(pre["canon"], "CRC-64-AVRO")
+
+        return {"fingerprint": fingerprint, "swrite": swrite, "sread": sread, "validate": validate, "cwrite": cwrite, "cread": cread, "jwrite": jwrite, "jread": jread, "parse": parse, "canon": canon}[kind]
 
     def run_case(self, case):
         ops = case["ops"]
@@ -292,6 +342,38 @@ class C18(Check):
                 if s.taken:
                     labels.add("preempted-inside")
                 check(res, f"start={first} preempt-after={k}/{total}")
+        # two preemptions on a grid: A runs k1 yield points, B runs k2, back to A (which finishes), then B finishes.
+        # Needed for state that is balanced whenever the other thread runs to completion (a shared stack).
+        g = 7
+        for first in range(n):
+            other = (first + 1) % n
+            ka = sorted({max(1, (steps[first] * i) // (g + 1)) for i in range(1, g + 1)})
+            kb = sorted({max(1, (steps[other] * i) // (g + 1)) for i in range(1, g + 1)})
+            for k1 in ka:
+                for k2 in kb:
+                    s = Scheduler(fns, first, [k1, k1 + k2])
+                    res = s.run()
+                    self.schedules += 1
+                    if s.taken >= 2:
+                        labels.add("double-preemption")
+                    check(res, f"start={first} preemptions-at={[k1, k1 + k2]}")
+        if case.get("cold"):
+            labels.add("cold-start")
+            from .c17 import ForkServer
+            if getattr(self, "_cold_server", None) is None or self._cold_owner != os.getpid():
+                self._cold_server = ForkServer()
+                self._cold_owner = os.getpid()
+            pres = [self._prepare(op) for op in ops]
+            for first in range(n):
+                total = steps[first]
+                pts = sorted(set(list(range(1, min(total, 25))) + list(range(1, total, max(1, total // 25)))))
+                for k in pts:
+                    out = self._cold_server.call(("call", "vlib.checks.c18", "cold_job", (ops, pres, first, [k])))
+                    if isinstance(out, tuple) and out and out[0] == "harness":
+                        raise HarnessError(f"cold job: {out[1]}")
+                    res, taken = out
+                    self.schedules += 1
+                    check(res, f"COLD process, start={first} preempt-after={k}/{total}")
         for sw in case.get("multi", []):
             labels.add("multi-preemption")
             for first in range(n):
@@ -312,3 +394,4 @@ class C18(Check):
 
 
 CHECK = C18()
+_CHECK = CHECK
